@@ -56,7 +56,6 @@ theorem consultRequest_core (disk : Bytes → Option Bytes) (s : HState) (idx : 
     (s1 : HState) (o1 : List HOut) (b1 : Bool) (h : consultRequest disk s idx rep = some (s1, o1, b1)) :
     SameCore s s1 := by
   unfold consultRequest at h
-  simp only at h
   repeat' split at h
   all_goals core_leaf h
 
